@@ -132,7 +132,7 @@ def perturb_params(obs, ref, rnd, frac=1.0):
     new_args = list(obs['args'][:start])
     pairs = [(e['src'], e['tgt']) for e in ref.edges]
     parallel = len(set(pairs)) != len(pairs)
-    newval = {}
+    newval, chosen = {}, {}
     n_slots = 0
     for name, a in zip(obs['names'][start:], obs['args'][start:]):
         if callable(a) or not is_param_array(a):
@@ -152,7 +152,11 @@ def perturb_params(obs, ref, rnd, frac=1.0):
                 continue
             if is_edge_arg and parallel:
                 continue
-            if rnd.random() > frac:
+            # (one decision per VALUE, not per slot: a value may sit in several slots - merged copies, or a scratch buffer that
+            # happens to hold a state value equal to a weight - and the reference parameter changes iff all of them change)
+            if v not in chosen:
+                chosen[v] = rnd.random() <= frac
+            if not chosen[v]:
                 continue
             if v not in newval:
                 newval[v] = quant(obs, round(v * rnd.uniform(0.5, 1.6) + rnd.uniform(-0.2, 0.2), 6))
